@@ -6,9 +6,11 @@
   panic, any interleaving of their atomic steps, any number of steps.
 -/
 import Netpoll.Conn.LifeReachLemmas
+import Netpoll.Conn.LifeDemos
+import Netpoll.Conn.Callbacks
 import Netpoll.Conn.Callbacks
 namespace Netpoll.Props.C05
-open Netpoll.Conn.Life Netpoll.Conn.Callbacks
+open Netpoll.Conn.Life Netpoll.Conn.LifeDemos Netpoll.Conn.Callbacks
 
 /-- the close callbacks (the callback list) are executed at most once, whatever happens -/
 theorem C05_cb_once {s : S} (h : Reachable s) : s.cbRuns ≤ 1 := by
@@ -97,14 +99,6 @@ theorem C05_lifo {α : Type} (cbs : List α) : runOrder (cbs.foldl addCloseCallb
 
 /-! Non-vacuity: a concrete run (server, OnRequest set) – accept, one delivery, handler consumes, peer hang-up, the
 hang-up goroutine runs the callbacks – reaches a quiescent-looking state in which the teardown was owed and done. -/
-def demoRun : List Act :=
-  [.a .aPrepE, .a .aPrepX, .a (.aAct1 0), .a (.aReg true), .a (.aAct2 0), .a (.aSt true),
-   .p .pFetch, .p (.pDo true), .p (.pRead 5), .p (.pAck 5), .p (.pGet 1), .p (.pLock true), .p .pFinish, .p .pDone,
-   .t (.t3 5), .t .tHenter, .u (.uConsume 5 0), .t .tHexit, .t (.t4a 0), .t (.t4b0 0), .t .t6, .t (.t7a 0), .t (.t8a 0),
-   .p .pPeerClose, .p .pFetch, .p (.pDo true), .p (.pRead 0), .p (.pAck 0), .p .pHup, .p (.pDet 1), .p .pHDone,
-   .h (.hCas true), .h (.hRd true), .h (.hWr true), .h (.hLen 0), .h (.hLock true),
-   .b .cbEnterU, .b .cbExitU, .b .cbEnterF, .b (.cbF1 true), .b (.cbF2 true), .b (.cbF3 1), .b (.cbF3b 0), .b .cbF3c,
-   .b (.cbF4 0), .b .cbF4b, .b .cbFx]
 
 example : ∃ s, run (init true false false true) demoRun = some s ∧ s.hupOwed = true ∧ s.cbRuns = 1 ∧ s.cbDone = 1 ∧
     s.fdCloses = 1 ∧ s.slotFrees = 1 ∧ s.epollDels = 1 ∧ s.reqRuns = 1 ∧ s.closing = 2 := by
